@@ -72,7 +72,7 @@ func TestC06Affinity(t *testing.T) {
 	sub := lab.Sub("affinity", "rapid: strategy in {ip_hash, ip_hash_consistent}, pool 1..16 with a drawn stable ejected subset, a client address (IPv4, IPv6 in 4 spellings, "+
 		"IPv4-mapped, junk tokens, 1..64 arbitrary field-value bytes, empty) and 2..6 requests attributed to it by the documented rule (X-Forwarded-For single / list with the "+
 		"separator directly after the first element / X-Real-IP / RemoteAddr host) that differ in method, path, source port, peer, unrelated and lower-priority headers, later "+
-		"list members, extra header lines; 0..3 requests of other clients in between; through lb.NextBackend or lb.ServeHTTP(L1); oracle: same backend for the whole group and "+
+		"list members, extra header lines; 0..3 requests of other clients in between; in one case of three the backends carry in-flight counts from {0,1,99,100,101,500} that change between the requests of the group (the client's own backend included); through lb.NextBackend or lb.ServeHTTP(L1); oracle: same backend for the whole group and "+
 		"every choice is an eligible member; non-trivial = >=2 eligible backends and >=1 pair differing in an irrelevant dimension")
 	sub.NontrivialFloor(0.6)
 	for _, l := range []string{"src-xff-single", "src-xff-list", "src-x-real-ip", "src-remoteaddr", "differ-source-port", "differ-path", "differ-other-headers", "differ-carrier"} {
@@ -82,6 +82,7 @@ func TestC06Affinity(t *testing.T) {
 	sub.Floor("addr-bytes", 0.08)
 	sub.Floor("addr-empty", 0.03)
 	sub.Floor("ejected-present", 0.15)
+	sub.Floor("inflight-load-changing", 0.25)
 	lab.Check(t, sub, 5000, 200000, func(rt *rapid.T) {
 		strategy := rapid.SampledFrom(hashStrategies).Draw(rt, "strategy")
 		p := drawPool(rt, strategy, 16)
@@ -119,7 +120,34 @@ func TestC06Affinity(t *testing.T) {
 		var others []reqSpec
 		var picks []string
 		var viol string
+		// concurrent traffic as the balancer sees it: in one case of three the backends carry in-flight
+		// counts (0, 1, and values around and far above 100) that change between the requests of the group
+		loaded := rapid.IntRange(0, 2).Draw(rt, "inflight_load") == 0
+		inflight := map[string]int{}
+		setLoad := func(name string, n int) {
+			for _, b := range p.lb.VerifBackends() {
+				if b.Name != name {
+					continue
+				}
+				for ; inflight[name] < n; inflight[name]++ {
+					b.IncrementConnections()
+				}
+				for ; inflight[name] > n; inflight[name]-- {
+					b.DecrementConnections()
+				}
+			}
+		}
+		if loaded {
+			for _, name := range p.names {
+				setLoad(name, rapid.SampledFrom([]int{0, 0, 1, 99, 100, 101, 500}).Draw(rt, "inflight"))
+			}
+		}
 		for i, s := range group {
+			if loaded && i > 0 {
+				// the load moves: the backend this client is on gets busy or idle, another one changes too
+				setLoad(picks[0], rapid.SampledFrom([]int{0, 99, 100, 101, 500}).Draw(rt, "inflight_home"))
+				setLoad(rapid.SampledFrom(p.names).Draw(rt, "inflight_which"), rapid.SampledFrom([]int{0, 1, 100, 500}).Draw(rt, "inflight_other"))
+			}
 			for j, m := 0, rapid.IntRange(0, 3).Draw(rt, "others"); j < m && viol == ""; j++ {
 				oa, _ := genAddr(rt, "other")
 				os, _ := genRequestFor(rt, oa)
@@ -156,6 +184,9 @@ func TestC06Affinity(t *testing.T) {
 		}
 		if len(others) > 0 {
 			labels = append(labels, "interleaved-others")
+		}
+		if loaded {
+			labels = append(labels, "inflight-load-changing")
 		}
 		sub.Case(map[string]any{"strategy": strategy, "n": len(p.names), "ejected": keysOf(p.ejected), "addr": addr, "group": group, "others": len(others), "via": via},
 			nEligible >= 2 && len(dims) > 0, labels...)
